@@ -293,27 +293,61 @@ func firstDiff(a, b string) string {
 // ---- known-finding class guards (narrow, syntactic) -------------------------------------------
 
 // block string whose content has a quote or backslash next to whitespace / at the content edge (findings C05-blockstring)
+// a block string token (as the lexer itself delimits it) whose raw text, between the end of the previous token and the start of the
+// next one and without its own delimiters, contains a quote or a backslash
 func c05HasTrickyBlockString(src []byte) bool {
-	s := src
-	for {
-		i := bytes.Index(s, []byte(`"""`))
-		if i < 0 {
-			return false
+	toks, p := c05ImplLex(src)
+	if p != nil {
+		return false
+	}
+	for k, t := range toks {
+		if t[0] != int(keyword.BLOCKSTRING) {
+			continue
 		}
-		rest := s[i+3:]
-		j := bytes.Index(rest, []byte(`"""`))
-		content := rest
-		if j >= 0 {
-			content = rest[:j]
+		from, to := 0, len(src)
+		if k > 0 {
+			from = toks[k-1][2]
+			// the previous literal ends before its closing delimiter
+			switch toks[k-1][0] {
+			case int(keyword.STRING):
+				if from < len(src) && src[from] == '"' {
+					from++
+				}
+			case int(keyword.BLOCKSTRING):
+				if bytes.HasPrefix(src[min(from, len(src)):], []byte(`"""`)) {
+					from += 3
+				}
+			}
 		}
-		if bytes.ContainsAny(content, "\"\\") {
+		if k+1 < len(toks) {
+			to = toks[k+1][1]
+			switch toks[k+1][0] {
+			case int(keyword.STRING):
+				if to > 0 && src[to-1] == '"' {
+					to--
+				}
+			case int(keyword.BLOCKSTRING):
+				// the next literal starts after its delimiter and the whitespace the lexer trims
+				if b := bytes.LastIndex(src[:to], []byte(`"""`)); b >= t[2] {
+					to = b
+				}
+			}
+		}
+		if from > to || to > len(src) {
+			continue
+		}
+		raw := src[from:to]
+		if a := bytes.Index(raw, []byte(`"""`)); a >= 0 {
+			raw = raw[a+3:]
+		}
+		if b := bytes.LastIndex(raw, []byte(`"""`)); b >= 0 {
+			raw = raw[:b]
+		}
+		if bytes.ContainsAny(raw, "\"\\") {
 			return true
 		}
-		if j < 0 {
-			return false
-		}
-		s = rest[j+3:]
 	}
+	return false
 }
 
 // ---- generators -------------------------------------------------------------------------------
